@@ -94,8 +94,8 @@ CHECKS["C16"] = {
     "rule": "case = (content kind/length/seed, configuration, end_chunk offsets, two write-cut lists, edit). Non-trivial = >= 3 data chunks, at least one chunk asserted identical across the original/edited pair (prefix or suffix), and the two write histories differ. Distinct by choice-sequence hash.",
     "assumptions": ["in manual mode both histories call end_chunk at the same content offsets", "bounds relation only for automatic mode without explicit end_chunk calls"],
     "runs": [
-        {"bin": "asan/C16", "cases": P(400, 3000), "procs": P(8, 16), "size": P(60, 100), "shrink_budget": 80},
-        {"kind": "script", "bin": "props/C16_tools.py", "cases": P(120, 1500), "procs": P(4, 16)},
+        {"bin": "asan/C16", "cases": P(400, 1800), "procs": P(8, 16), "size": P(60, 100), "shrink_budget": 80},
+        {"kind": "script", "bin": "props/C16_tools.py", "cases": P(120, 700), "procs": P(4, 16)},
     ],
     "extra_targets": ["asan/tools/zck", "asan/tools/zck_read_header"],
 }
